@@ -1,4 +1,5 @@
 import Dhcp.V4.Packet
+import Dhcp.V6.Codec
 /-
   Model of the two serving loops, `(*server4.Server).Serve`
   (dhcpv4/server4/server.go) and `(*server6.Server).Serve`
@@ -23,8 +24,7 @@ import Dhcp.V4.Packet
   The socket is a list of read results; the output is the list of handler
   invocations (in the order of the `go` statements) and the way the loop
   ended.  The model is parametric in the decoder and in the peer rule so that
-  the same fold serves DHCPv4 (`dec4`, `peer4`) and DHCPv6 (`peer6`, decoder
-  supplied by the caller until the DHCPv6 codec model lands).
+  the same fold serves DHCPv4 (`dec4`, `peer4`) and DHCPv6 (`dec6`, `peer6`).
 -/
 namespace Dhcp.Server
 open Dhcp
@@ -157,5 +157,12 @@ def serve4 (rs : List ReadResult) : Outcome V4.Pkt4 := serve decode4 peer4 rs
 /-- `(*server6.Server).Serve`, for a given model of `dhcpv6.FromBytes`. -/
 def serve6 {α : Type} (dec6 : Bytes → Option α) (rs : List ReadResult) : Outcome α :=
   serve dec6 peer6 rs
+
+/-- `dhcpv6.FromBytes` as an acceptance function (`dec6` never panics:
+`Dhcp.V6.dec6_ne_panic`). -/
+def decode6 (b : Bytes) : Option V6.Msg6 := (V6.dec6 b).toOption
+
+/-- `(*server6.Server).Serve` with the DHCPv6 codec model as decoder -/
+def serve6dec (rs : List ReadResult) : Outcome V6.Msg6 := serve6 decode6 rs
 
 end Dhcp.Server
